@@ -37,6 +37,17 @@ Check (C11_nesting_every_call_partial :
   | _ => True
   end).
 
+Check (C11_spans_nonempty_partial :
+  forall ro alpha fast std_parse k inp d,
+  datum_from_trait ro alpha fast std_parse k inp = POk d -> nef false (dinfo d)).
+
+Check (C11_token_consumes :
+  forall ro alpha fast std_parse fuel b r, RelFramework.at_byte b r ->
+  match parse_token ro alpha fast std_parse fuel b r with
+  | (Ok _, r') => pos_lt (rpos r) (rpos r')
+  | (Err _, _) => True
+  end).
+
 Check (C11_position_monotone :
   forall ro alpha fast std_parse fuel b r,
   pos_le (rpos r) (rpos (snd (parse_token ro alpha fast std_parse fuel b r)))).
